@@ -11,7 +11,8 @@
 //         ncont (cv px pX py pY kmem mem*kmem kch (chVar mx mX my mY)*kch)*ncont     ClusterContainmentConstraints
 //         prints per dimension:  "N OK m (l r gap)*" | "N ERR idx|other"   then per containment spec "C m (l r gap)*"
 // layout: n (x X y Y)*n | nexg groups | ncl (parent px pX py pY mx mX my mY knodes node*)*ncl |
-//         ncc (1 d l r g e | 3 d pos fixed k (s o)*k)*ncc | ne (u v)*ne ideal mode
+//         ncc (1 d l r g e | 2 d la ra g e | 3 d pos fixed k (s o)*k | 5 d sep k (a b)*k | 6 d sep e k (a b)*k)*ncc |
+//         ne (u v)*ne ideal mode
 //         mode 0 = makeFeasible()+run() with setAvoidNodeOverlaps(true, groups) (and the cluster hierarchy when ncl > 0)
 //         prints  "R (cx cy w h)*n UX k idx* UY k idx* [EXC ...]"  or  "HANG <phase>"
 #include <cstddef>
@@ -28,6 +29,23 @@
 #include <set>
 #include <iostream>
 #include <sstream>
+#include <valarray>
+#include <map>
+#include <list>
+#include <algorithm>
+#include <utility>
+#include <fstream>
+#include <cassert>
+#include <iomanip>
+#include <typeinfo>
+#include <stdexcept>
+#include <memory>
+#include <functional>
+#include <limits>
+#include <cmath>
+// read access to ConstrainedFDLayout's private state for the `vars` mode (after the standard headers)
+#define private public
+#define protected public
 #include <libvpsc/rectangle.h>
 #include <libvpsc/variable.h>
 #include <libvpsc/constraint.h>
@@ -174,14 +192,63 @@ static void genMode(Toks &tk)
     for (size_t i = 0; i < rs.size(); i++) delete rs[i];
 }
 
-static void layoutMode(Toks &tk)
+// user compound constraints (same syntax as harness/c07_cc.cpp for these codes; la, ra, a, b = positions of EARLIER
+// AlignmentConstraints (code 3) in the list):
+//   1 d l r g e | 2 d la ra g e | 3 d pos fixed k (s o)*k | 5 d sep k (a b)*k | 6 d sep e k (a b)*k
+static AlignmentConstraint *alignAt(CompoundConstraints &ccs, long i)
 {
-    vpsc::Rectangles rs; readRects(tk, rs);
-    int n = rs.size();
-    ListOfNodeIndexes groups; readGroups(tk, groups);
+    if (i < 0 || i >= (long) ccs.size()) throw std::string("alignment reference out of range");
+    AlignmentConstraint *a = dynamic_cast<AlignmentConstraint *>(ccs[i]);
+    if (!a) throw std::string("reference is not an alignment");
+    return a;
+}
+static void readCcs(Toks &tk, CompoundConstraints &ccs)
+{
+    int ncc = tk.next();
+    for (int i = 0; i < ncc; i++) {
+        int code = tk.next();
+        int d = tk.next();
+        vpsc::Dim dim = d ? vpsc::YDIM : vpsc::XDIM;
+        if (code == 1) {
+            unsigned l = tk.next(), r = tk.next(); double g = tk.q(); int e = tk.next();
+            ccs.push_back(new SeparationConstraint(dim, l, r, g, e != 0));
+        } else if (code == 2) {
+            long la = tk.next(), ra = tk.next(); double g = tk.q(); int e = tk.next();
+            ccs.push_back(new SeparationConstraint(dim, alignAt(ccs, la), alignAt(ccs, ra), g, e != 0));
+        } else if (code == 3) {
+            double pos = tk.q(); int fx = tk.next(); int k = tk.next();
+            AlignmentConstraint *ac = new AlignmentConstraint(dim, pos);
+            if (fx) ac->fixPos(pos);
+            for (int j = 0; j < k; j++) { unsigned s = tk.next(); double o = tk.q(); ac->addShape(s, o); }
+            ccs.push_back(ac);
+        } else if (code == 5) {
+            double sep = tk.q(); int k = tk.next();
+            DistributionConstraint *dc = new DistributionConstraint(dim); dc->setSeparation(sep);
+            for (int j = 0; j < k; j++) { long a = tk.next(), b = tk.next(); dc->addAlignmentPair(alignAt(ccs, a), alignAt(ccs, b)); }
+            ccs.push_back(dc);
+        } else if (code == 6) {
+            double sep = tk.q(); int e = tk.next(); int k = tk.next();
+            MultiSeparationConstraint *mc = new MultiSeparationConstraint(dim, sep, e != 0);
+            for (int j = 0; j < k; j++) { long a = tk.next(), b = tk.next(); mc->addAlignmentPair(alignAt(ccs, a), alignAt(ccs, b)); }
+            ccs.push_back(mc);
+        } else throw std::string("bad cc code");
+    }
+}
+
+struct Scene {
+    vpsc::Rectangles rs; int n; ListOfNodeIndexes groups; RootCluster *root; vector<Cluster *> cl; CompoundConstraints ccs;
+    vector<std::pair<unsigned, unsigned> > es; double ideal; int mode;
+};
+static void readScene(Toks &tk, Scene &sc)
+{
+    vpsc::Rectangles &rs = sc.rs;
+    readRects(tk, rs);
+    sc.n = rs.size();
+    readGroups(tk, sc.groups);
     int ncl = tk.next();
-    RootCluster *root = nullptr;
-    vector<Cluster *> cl;
+    sc.root = nullptr;
+    vector<Cluster *> &cl = sc.cl;
+    RootCluster *&root = sc.root;
     if (ncl > 0) root = new RootCluster();
     for (int i = 0; i < ncl; i++) {
         int parent = tk.next();
@@ -192,25 +259,101 @@ static void layoutMode(Toks &tk)
         if (parent < 0) root->addChildCluster(c); else cl[parent]->addChildCluster(c);
         cl.push_back(c);
     }
-    CompoundConstraints ccs;
-    int ncc = tk.next();
-    for (int i = 0; i < ncc; i++) {
-        int code = tk.next();
-        if (code == 1) {
-            int d = tk.next(); unsigned l = tk.next(), r = tk.next(); double g = tk.q(); int e = tk.next();
-            ccs.push_back(new SeparationConstraint(d ? vpsc::YDIM : vpsc::XDIM, l, r, g, e != 0));
-        } else {
-            int d = tk.next(); double pos = tk.q(); int fx = tk.next(); int k = tk.next();
-            AlignmentConstraint *ac = new AlignmentConstraint(d ? vpsc::YDIM : vpsc::XDIM, pos);
-            if (fx) ac->fixPos(pos);
-            for (int j = 0; j < k; j++) { unsigned s = tk.next(); double o = tk.q(); ac->addShape(s, o); }
-            ccs.push_back(ac);
-        }
-    }
-    vector<std::pair<unsigned, unsigned> > es;
+    readCcs(tk, sc.ccs);
     int ne = tk.next();
-    for (int i = 0; i < ne; i++) { unsigned u = tk.next(), v = tk.next(); es.push_back(std::make_pair(u, v)); }
-    double ideal = tk.q(); int mode = tk.next();
+    for (int i = 0; i < ne; i++) { unsigned u = tk.next(), v = tk.next(); sc.es.push_back(std::make_pair(u, v)); }
+    sc.ideal = tk.q(); sc.mode = tk.next();
+}
+
+// vars: the variable list of each dimension exactly as run() builds it before a projection (colafd.cpp:316-324 then moveTo
+// :1063-1092): generateNonOverlapAndClusterCompoundConstraints (numbers the cluster variables, creates the containment
+// constraints that store these numbers), then setupVarsAndConstraints + the extra constraints.  Prints per dimension
+//   V <nv> tag*            who created each variable: N<i> rectangle, C<k>-/C<k>+ boundary of cluster k (input order), R-/R+ root,
+//                          A<j>.<m> m-th variable of user constraint j, ?<i> nobody we know
+//   U <m> (ltag rtag gap eq)*   the user constraints' separation constraints
+//   K <m> (ltag rtag gap)*      the separation constraints of all ClusterContainmentConstraints (stored ids -> run-time variables)
+static void varsMode(Toks &tk)
+{
+    Scene sc; readScene(tk, sc);
+    int n = sc.n;
+    std::ostringstream out;
+    try {
+        ConstrainedFDLayout alg(sc.rs, sc.es, sc.ideal);
+        alg.setConstraints(sc.ccs);
+        alg.setAvoidNodeOverlaps(true, sc.groups);
+        if (sc.root) alg.setClusterHierarchy(sc.root);
+        vpsc::Variables v0[2];
+        v0[0].resize(n); v0[1].resize(n);
+        alg.generateNonOverlapAndClusterCompoundConstraints(v0);
+        for (int d = 0; d < 2; d++) for (size_t i = n; i < v0[d].size(); i++) delete v0[d][i];
+        for (int dim = 0; dim < 2; dim++) {
+            vpsc::Variables vs; vpsc::Constraints cs;
+            std::valarray<double> &coords = dim == 0 ? alg.X : alg.Y;
+            setupVarsAndConstraints(n, alg.ccs, (vpsc::Dim) dim, alg.boundingBoxes, alg.clusterHierarchy, vs, cs, coords);
+            size_t nUser = cs.size(), nvSetup = vs.size();
+            for (size_t i = 0; i < alg.extraConstraints.size(); i++) alg.extraConstraints[i]->generateVariables((vpsc::Dim) dim, vs);
+            // tags by object identity
+            std::map<vpsc::Variable *, std::string> tag;
+            char b[64];
+            for (int i = 0; i < n; i++) { snprintf(b, sizeof b, "N%d", i); tag[vs[i]] = b; }
+            for (size_t k = 0; k < sc.cl.size(); k++) {
+                vpsc::Variable *lo = dim == 0 ? sc.cl[k]->vXMin : sc.cl[k]->vYMin, *hi = dim == 0 ? sc.cl[k]->vXMax : sc.cl[k]->vYMax;
+                snprintf(b, sizeof b, "C%d-", (int) k); tag[lo] = b;
+                snprintf(b, sizeof b, "C%d+", (int) k); tag[hi] = b;
+            }
+            if (sc.root && !sc.root->flat()) {
+                tag[dim == 0 ? sc.root->vXMin : sc.root->vYMin] = "R-";
+                tag[dim == 0 ? sc.root->vXMax : sc.root->vYMax] = "R+";
+            }
+            for (size_t j = 0; j < sc.ccs.size(); j++) {
+                AlignmentConstraint *a = dynamic_cast<AlignmentConstraint *>(sc.ccs[j]);
+                if (a && a->dimension() == (vpsc::Dim) dim && a->variable) { snprintf(b, sizeof b, "A%d.0", (int) j); tag[a->variable] = b; }
+            }
+            out << "V " << vs.size();
+            for (size_t i = 0; i < vs.size(); i++) {
+                if (tag.count(vs[i])) out << " " << tag[vs[i]]; else out << " ?" << i;
+                if ((size_t) vs[i]->id != i) out << "!id";
+            }
+            if (vs.size() != nvSetup) out << " EXTRAVARS";
+            out << "\n";
+            out << "U " << nUser;
+            for (size_t i = 0; i < nUser; i++) {
+                snprintf(b, sizeof b, " %.17g %d", cs[i]->gap, (int) cs[i]->equality);
+                out << " " << (tag.count(cs[i]->left) ? tag[cs[i]->left] : "?") << " " << (tag.count(cs[i]->right) ? tag[cs[i]->right] : "?") << b;
+            }
+            out << "\n";
+            std::ostringstream ks; size_t nk = 0;
+            for (size_t i = 0; i < alg.extraConstraints.size(); i++) {
+                ClusterContainmentConstraints *ccc = dynamic_cast<ClusterContainmentConstraints *>(alg.extraConstraints[i]);
+                if (!ccc) continue;
+                vpsc::Constraints kc;
+                ccc->generateSeparationConstraints((vpsc::Dim) dim, vs, kc, alg.boundingBoxes);
+                for (size_t j = 0; j < kc.size(); j++) {
+                    snprintf(b, sizeof b, " %.17g", kc[j]->gap);
+                    ks << " " << (tag.count(kc[j]->left) ? tag[kc[j]->left] : "?") << " " << (tag.count(kc[j]->right) ? tag[kc[j]->right] : "?") << b;
+                    nk++; delete kc[j];
+                }
+            }
+            out << "K " << nk << ks.str() << "\n";
+            for (size_t i = 0; i < cs.size(); i++) delete cs[i];
+            for (size_t i = 0; i < vs.size(); i++) delete vs[i];
+        }
+        for (size_t i = 0; i < alg.extraConstraints.size(); i++) delete alg.extraConstraints[i];
+        alg.extraConstraints.clear();
+    } catch (InvalidVariableIndexException &e) { out.str(""); for (int k = 0; k < 6; k++) out << "ERR idx\n";
+    } catch (vpsc::CriticalFailure &e) { out.str(""); for (int k = 0; k < 6; k++) out << "ERR assert\n";
+    } catch (...) { out.str(""); for (int k = 0; k < 6; k++) out << "ERR other\n"; }
+    std::cout << out.str();
+    for (size_t i = 0; i < sc.ccs.size(); i++) delete sc.ccs[i];
+    delete sc.root;
+    for (size_t i = 0; i < sc.rs.size(); i++) delete sc.rs[i];
+}
+
+static void layoutMode(Toks &tk)
+{
+    Scene sc; readScene(tk, sc);
+    vpsc::Rectangles &rs = sc.rs; int n = sc.n; ListOfNodeIndexes &groups = sc.groups; RootCluster *root = sc.root;
+    CompoundConstraints &ccs = sc.ccs; vector<std::pair<unsigned, unsigned> > &es = sc.es; double ideal = sc.ideal; int mode = sc.mode;
     UnsatisfiableConstraintInfos ux, uy;
     std::string exc;
     armWatchdog(g_limit);
@@ -267,7 +410,7 @@ int main(int argc, char **argv)
         std::istringstream is(line); std::string w;
         while (is >> w) { if (w == "|") continue; tk.t.push_back(atol(w.c_str())); }
         try {
-            if (mode == "gen") genMode(tk); else layoutMode(tk);
+            if (mode == "gen") genMode(tk); else if (mode == "vars") varsMode(tk); else layoutMode(tk);
         } catch (std::string &s) { std::cout << "BADINPUT " << s << "\n"; }
         std::cout.flush();
     }
